@@ -70,6 +70,7 @@ being too large.  `month_days[m-1]` is a Python list read: negative wrap-around,
 def mkDate? (d m y : Int) : Except PyErr PyDate :=
   if y < 1900 then .error .finError
   else if d < 1 then .error .finError
+  else if m < 1 ∨ m > 12 then .error .finError
   else
     let tbl := if is_leap_year y then month_days_leap_year else month_days_not_leap_year
     match pyIdx? tbl (m - 1) with
